@@ -585,8 +585,14 @@ impl Connection {
                     .ok_or_else(|| Error::InvalidStateMessage("no active stream".to_string()))?;
 
                 stream.write_u32(total_len as u32).await?;
+                #[cfg(edp_rs_verif)]
+                crate::verif::point("conn.write.after_len").await;
                 stream.write_u8(PASS_THROUGH).await?;
+                #[cfg(edp_rs_verif)]
+                crate::verif::point("conn.write.after_marker").await;
                 stream.write_all(&control_encoded).await?;
+                #[cfg(edp_rs_verif)]
+                crate::verif::point("conn.write.after_control").await;
                 stream.write_all(&msg_encoded).await?;
                 stream.flush().await?;
             } else {
@@ -603,12 +609,18 @@ impl Connection {
                     .ok_or_else(|| Error::InvalidStateMessage("no active stream".to_string()))?;
 
                 stream.write_u32(total_len as u32).await?;
+                #[cfg(edp_rs_verif)]
+                crate::verif::point("conn.write.after_len").await;
                 stream.write_u8(PASS_THROUGH).await?;
+                #[cfg(edp_rs_verif)]
+                crate::verif::point("conn.write.after_marker").await;
                 stream.write_all(&control_encoded).await?;
                 stream.flush().await?;
             }
 
             trace!("Sent control message: {:?}", control);
+            #[cfg(edp_rs_verif)]
+            crate::verif::point("conn.write.done").await;
             return Ok(());
         }
 
@@ -644,6 +656,8 @@ impl Connection {
             .map_err(|_| Error::Timeout(self.config.timeout))??;
 
         trace!("Sent control message: {:?}", control);
+        #[cfg(edp_rs_verif)]
+        crate::verif::point("conn.write.done").await;
 
         Ok(())
     }
